@@ -9,8 +9,15 @@ ID="$(echo "${1:-}" | tr a-z A-Z)"
 case "$ID" in
   C01) RUNS=2000000; MAXLEN=700 ;;
   C02) RUNS=1000000; MAXLEN=700 ;;
+  C03) RUNS=30000;   MAXLEN=900 ;;
   C04) RUNS=60000;   MAXLEN=900 ;;
+  C05) RUNS=20000;   MAXLEN=500 ;;
+  C06) RUNS=20000;   MAXLEN=700 ;;
+  C07) RUNS=30000;   MAXLEN=400 ;;
+  C08) RUNS=40000;   MAXLEN=400 ;;
+  C09) RUNS=20000;   MAXLEN=600 ;;
   C11) RUNS=300000;  MAXLEN=260 ;;
+  C12) RUNS=2000000; MAXLEN=64 ;;
   C14) RUNS=200000;  MAXLEN=2000 ;;
   C15) RUNS=400000;  MAXLEN=4000 ;;
   C17) RUNS=1000000; MAXLEN=200 ;;
@@ -45,13 +52,13 @@ PY
 }
 
 cd "$VERIF/harness/vcheck"
-if ! cargo +nightly fuzz build --fuzz-dir "$VERIF/fuzz" --target-dir "$WORK/fuzz-target" "$TARGET" > "$WORK/build-fuzz.log" 2>&1; then
+if ! cargo +nightly fuzz build -s none --fuzz-dir "$VERIF/fuzz" --target-dir "$WORK/fuzz-target-nosan" "$TARGET" > "$WORK/build-fuzz.log" 2>&1; then
   echo "NOTE: fuzz build failed (see $WORK/build-fuzz.log); thorough tier continues on proptest alone"
   note '{"ran": false, "reason": "cargo +nightly fuzz build failed; proptest alone"}'
   exit 0
 fi
 T0=$(date +%s)
-( cd "$LOGS" && cargo +nightly fuzz run --fuzz-dir "$VERIF/fuzz" --target-dir "$WORK/fuzz-target" "$TARGET" "$CORPUS" -- \
+( cd "$LOGS" && cargo +nightly fuzz run -s none --fuzz-dir "$VERIF/fuzz" --target-dir "$WORK/fuzz-target-nosan" "$TARGET" "$CORPUS" -- \
     -runs=$((RUNS / JOBS)) -seed="$SEED" -len_control=0 -max_len=$MAXLEN -jobs=$JOBS -workers=$JOBS \
     -print_final_stats=1 -artifact_prefix="$ART" > "$LOGS/driver.log" 2>&1 )
 T1=$(date +%s)
